@@ -28,6 +28,20 @@ impl Header {
         Self { version, dict }
     }
 
+    /// Creates a header of the lowest format version whose header length field can hold `dict`:
+    /// version 1.0 stores the length in two bytes, version 2.0 in four.
+    pub fn with_fitting_version(dict: HeaderDict) -> Self {
+        let max_header_len = dict.to_string().len() + ALIGN;
+
+        let version = if max_header_len <= usize::from(u16::MAX) {
+            Version::V1
+        } else {
+            Version::V2
+        };
+
+        Self::new(version, dict)
+    }
+
     /// Reads a npy header from a reader.
     ///
     /// The stream is assumed to be positioned at the start.
